@@ -460,6 +460,8 @@ func (o *objView) closed(cx *objCtx, a *ssa.Alloc, at ssa.Instruction, seen map[
 		return true
 	}
 	seen[a] = true
+	merged := map[*ssa.Phi]bool{}
+	held := map[*ssa.UnOp]bool{}
 	var visit func(addr ssa.Value, top bool) bool
 	visit = func(addr ssa.Value, top bool) bool {
 		refs := addr.Referrers()
@@ -472,6 +474,22 @@ func (o *objView) closed(cx *objCtx, a *ssa.Alloc, at ssa.Instruction, seen map[
 			}
 			switch x := ref.(type) {
 			case *ssa.DebugRef, *ssa.Return:
+			case *ssa.Phi:
+				// the pointer is merged with others (a result variable): what is done with the
+				// merged pointer is held to the same conditions
+				if !top {
+					return false
+				}
+				if !merged[x] {
+					merged[x] = true
+					if !visit(x, true) {
+						return false
+					}
+				}
+			case *ssa.BinOp:
+				if !(isNilConst(x.X) || isNilConst(x.Y)) {
+					return false
+				}
 			case *ssa.UnOp:
 				if x.Op != token.MUL {
 					return false
@@ -486,6 +504,33 @@ func (o *objView) closed(cx *objCtx, a *ssa.Alloc, at ssa.Instruction, seen map[
 				}
 				if !top {
 					return false // the address of a part is stored away
+				}
+				if la, isLocal := x.Addr.(*ssa.Alloc); isLocal && la.Referrers() != nil {
+					// the pointer is kept in a local variable (a result variable): the variable is only
+					// assigned and read, and what is done with the pointer read from it is held to
+					// the same conditions
+					for _, lr := range *la.Referrers() {
+						switch y := lr.(type) {
+						case *ssa.DebugRef:
+						case *ssa.Store:
+							if y.Addr != ssa.Value(la) {
+								return false
+							}
+						case *ssa.UnOp:
+							if y.Op != token.MUL {
+								return false
+							}
+							if !held[y] {
+								held[y] = true
+								if !visit(y, true) {
+									return false
+								}
+							}
+						default:
+							return false
+						}
+					}
+					continue
 				}
 				fa, isFA := x.Addr.(*ssa.FieldAddr)
 				if !isFA {
